@@ -285,7 +285,12 @@ func (p *Parser) doSet(handler Handler, name, value string) error {
 			data = i
 
 		default:
-			panic(fmt.Sprintf("unsupported type %T", val))
+			return &ParseError{
+				Name: p.name,
+				Line: p.line,
+				Text: name,
+				Err:  fmt.Errorf("unsupported type %T", val),
+			}
 		}
 
 		return handler.Set(name, data)
